@@ -292,9 +292,15 @@ def gen_cases(ctx, xm, n_valid, n_mut, jobs):
             cases.append(Case("generator-bug", name, r["units"], enc, doc=m))
             continue
         units = r["plain"]
+        switched = False
         if any(0xD800 <= u <= 0xDFFF for u in units) and not well_formed16(units):
+            switched = enc != "utf16"
             enc = "utf16"
         cases.append(Case("mutant", name, units, enc, None, False, (0,) if colon else (0, 1)))
+        if switched:
+            # the document may declare encoding="UTF-8" while it now has to be sent as UTF-16 (unpaired surrogate): the
+            # verdict must still be fatal, the first code may come from the encoding conflict instead
+            cases[-1].tag = "enc-switched"
     k = 0
     tries = 0
     made = 0
@@ -314,6 +320,8 @@ def gen_cases(ctx, xm, n_valid, n_mut, jobs):
         k += 1
         made += 1
         if not well_formed16(u):
+            if enc != "utf16" and tag is None:
+                tag = "enc-switched"
             enc = "utf16"
         cases.append(Case("mutant", name, u, enc, None, False, (0,) if colon else (0, 1)))
         cases[-1].tag = tag
@@ -468,6 +476,7 @@ def correspond(ctx, xh, xm, xd, codes, jobs, thorough, proof_broken, failed, out
     ctx.coverage["traces_validated_against_impl"] = nreq
     judge(ctx, cases, cfgs, for_c03)
     nreq += doctype_stream(ctx, xh, jobs, 150 if not thorough else 5000)
+    nreq += name_stream(ctx, xh, xd, jobs)
     ctx.coverage["traces_validated_against_impl"] = nreq
     if proof_broken and not ctx.violations:
         ctx.violation("obligation", {"what": "Coq obligation no longer checks and no failing input was found by the "
@@ -487,6 +496,109 @@ def replay_expect(ctx, xh, r):
                                                    "request": r["request"], "impl": [ev, errs, fh], "expect": ex})
 
 
+def name_stream(ctx, xh, xd, jobs):
+    """names with ONE character that is a legal XML character but not a name character (private-use planes 15/16 -
+    surrogate pairs with a high unit above 0xDB7F -, other supplementary non-name code points do not exist in XML 1.0
+    5th ed. terms below U+F0000, and BMP non-name characters taken from the regenerated table) at the first / middle /
+    last position of element names, attribute names, prefixes, local parts, PI targets and entity names: every such
+    document must be fatal on all scanners, namespaces on and off; the same documents with a legal supplementary name
+    character (U+10000, U+2F800, U+EFFFF) must be accepted with the names as written"""
+    rng = ctx.rng
+    mk = xd["masks"]
+    t10 = xd["t10"]
+    bmp_bad = [c for c in (0xD7, 0xF7, 0x37E, 0x2000, 0x2190, 0x3000, 0x20AC, 0xFFFD, 0x2028, 0x24, 0x2B)
+               if (t10[c] & mk["gXMLCharMask"]) and not (t10[c] & mk["gNameCharMask"])]
+    bad = [0xF0000, 0xF1234, 0xFFFFD, 0x100000, 0x10FFFD, 0x10FFFF] + bmp_bad
+    good = [0x10000, 0x2F800, 0xEFFFF, 0xE0000]
+    templates = [
+        ("elem", lambda n: "<%s/>" % n, "all"), ("elem2", lambda n: "<%s x='1'></%s>" % (n, n), "all"),
+        ("attr", lambda n: "<a %s='v'/>" % n, "all"), ("attr2", lambda n: "<a b='1' %s='v'/>" % n, "all"),
+        ("prefix", lambda n: "<%s:a xmlns:%s='u'/>" % (n, n), "all"), ("local", lambda n: "<p:%s xmlns:p='u'/>" % n, "all"),
+        ("attr-prefix", lambda n: "<a xmlns:%s='u' %s:b='v'/>" % (n, n), "all"),
+        ("attr-local", lambda n: "<a xmlns:p='u' p:%s='v'/>" % n, "all"),
+        ("pi", lambda n: "<a><?%s x?></a>" % n, "all"), ("pi-prolog", lambda n: "<?%s?><a/>" % n, "all"),
+        ("entity", lambda n: "<!DOCTYPE a [<!ENTITY %s 'v'>]><a>&%s;</a>" % (n, n), "dtd"),
+        ("entity-ref", lambda n: "<!DOCTYPE a [<!ENTITY ab 'v'>]><a>&%s;</a>" % n.replace("\x00", ""), "dtd"),
+        ("entity-attr", lambda n: "<!DOCTYPE a [<!ENTITY %s 'v'>]><a b='&%s;'/>" % (n, n), "dtd"),
+        ("pe", lambda n: "<!DOCTYPE a [<!ENTITY %% %s ' '> %%%s; ]><a/>" % (n, n), "dtd"),
+    ]
+
+    def spell(ch, pos):
+        base = rng.choice(["ab", "cde", "x1y", "q_"])
+        if pos == "first":
+            return ch + base
+        if pos == "last":
+            return base + ch
+        return base[:1] + ch + base[1:]
+    cases = []
+    combos = [(t, c, p) for t in templates for c in bad for p in ("first", "middle", "last")]
+    rng.shuffle(combos)
+    # every template x position with a private-use-plane character is always included (the class the tables cannot show)
+    must = [(t, c, p) for t in templates for c in (0xF0000, 0x10FFFD) for p in ("middle", "last")]
+    pick = must + combos[:(60 if ctx.tier == "quick" else len(combos))]
+    for (tn, tf, scope), c, pos in pick:
+        cases.append(("name-mutant/%s/%s/%s" % (tn, "supp" if c > 0xFFFF else "bmp", pos), tf(spell(chr(c), pos)), scope, True))
+    for (tn, tf, scope) in templates:
+        if tn in ("pi", "pi-prolog", "entity-ref"):
+            continue          # known finding F40: DOM builders reject supplementary characters in PI targets;
+                              # entity-ref only makes sense as a mutant (the referenced name is not declared)
+        for c in good:
+            pos = rng.choice(["first", "middle", "last"])
+            cases.append(("name-valid/%s/%s" % (tn, pos), tf(spell(chr(c), pos)), scope, False))
+    lines, meta = [], []
+    for k, (kind, doc, scope, mustfail) in enumerate(cases):
+        scs = SCANNERS if scope == "all" else ["IG", "DG"]
+        for sc in scs:
+            for ns in (0, 1):
+                for a in APIS:
+                    lines.append("parse %s %s %d %s" % (a, sc, ns, bhex(doc.encode("utf-8"))))
+                    meta.append((k, a, sc, ns))
+    out = run_lines(xh, lines, jobs)
+    dist = ctx.coverage.setdefault("input_distribution", {})
+    nbad = 0
+    first = {}
+    for (k, a, sc, ns), req, o in zip(meta, lines, out):
+        ctx.count()
+        kind, doc, scope, mustfail = cases[k]
+        dist[kind.rsplit("/", 1)[0]] = dist.get(kind.rsplit("/", 1)[0], 0) + 1
+        ctx.distinct(("name", doc, sc, ns))
+        ev, errs, fh = parse_impl(o)
+        fatal = fatal_count(errs) > 0
+        if mustfail and not fatal:
+            nbad += 1
+            if nbad <= 4:
+                ctx.violation("name-mutant", {
+                    "what": "%s/%s namespaces=%d accepts a name containing a character that is not a name character (%s)"
+                            % (a, sc, ns, kind), "request": req, "impl": [ev, errs, fh], "expect": {"fatal": True},
+                    "document": doc})
+        elif not mustfail:
+            # SGXMLScanner resolves prefixes whatever the setting; all documents here declare their prefixes
+            if a in ("dom", "ls") and errs == ["EXC:DOMException:5"] and ("/entity" in kind or "/pe/" in kind) \
+                    and ctx.find_known("F40"):
+                # known finding F40 (same root cause): the DOM builders re-validate entity names with
+                # XMLChar1_0::isValidName, which knows no surrogate pairs
+                ctx.known_finding("F40", "DOM builders throw DOMException INVALID_CHARACTER_ERR for an ENTITY declaration "
+                                  "whose name contains a supplementary name character (SAX parsers accept)")
+                continue
+            if fatal or errs:
+                nbad += 1
+                if nbad <= 4:
+                    ctx.violation("name-valid", {
+                        "what": "%s/%s namespaces=%d rejects a name with a legal supplementary name character (%s)"
+                                % (a, sc, ns, kind), "request": req, "impl": [ev, errs, fh],
+                        "expect": {"fatal": False, "events": None}, "document": doc})
+            else:
+                ref = first.setdefault((k, sc, ns), ev)
+                if ref != ev:
+                    nbad += 1
+                    if nbad <= 4:
+                        ctx.violation("name-valid", {"what": "APIs disagree on a document with supplementary name characters",
+                                                     "request": req, "impl": [ev, errs, fh],
+                                                     "expect": {"fatal": False, "events": ref}, "document": doc})
+    ctx.coverage["name_stream"] = {"documents": len(cases), "parser_runs": len(lines)}
+    return len(lines)
+
+
 def doctype_stream(ctx, xh, jobs, ndocs):
     """documents with an internal DTD subset (gen/C02_dtd.py): the verdict prescribed by XML 1.0 section 4.1 (WFC Entity
     Declared applies iff no PE reference in the internal subset or standalone='yes'), the events obtained by expanding
@@ -504,25 +616,51 @@ def doctype_stream(ctx, xh, jobs, ndocs):
                 for a in APIS:
                     lines.append("parse %s %s %d %s" % (a, sc, ns, bhex(s.encode("utf-8"))))
                     meta.append((i, a, sc, ns))
+    # external subset / external parameter entity with conditional sections (INCLUDE / IGNORE, nesting, runs of ']'
+    # before '>', PE references as keyword), served by the harness' entity resolver
+    restok = lambda res: "".join(" %s=%s" % (k, bhex(v.encode("utf-8"))) for k, v in sorted(res.items()))
+    ext = []
+    for i in range(ndocs // 2):
+        c = GD.gen_ext(rng)
+        ext.append(c)
+        for sc in ("IG", "DG"):
+            for a in APIS:
+                ns = (i + len(a)) % 2
+                lines.append("parse %s %s %d %s -%s" % (a, sc, ns, bhex(c["text"].encode("utf-8")), restok(c["res"])))
+                meta.append((("x", i), a, sc, ns))
     muts = []
     for rep in range(3 if ctx.tier == "quick" else 40):
-        muts += GD.mutants(rng)
-    for j, (name, s) in enumerate(muts):
+        muts += [(n, s, {}) for n, s in GD.mutants(rng)] + GD.ext_mutants(rng)
+    for j, (name, s, mres) in enumerate(muts):
         for sc in ("IG", "DG"):
             for a in APIS:
                 ns = (j + len(a)) % 2
-                lines.append("parse %s %s %d %s" % (a, sc, ns, bhex(s.encode("utf-8"))))
+                lines.append("parse %s %s %d %s -%s" % (a, sc, ns, bhex(s.encode("utf-8")), restok(mres)))
                 meta.append((("m", j), a, sc, ns))
     out = run_lines(xh, lines, jobs)
     dist = ctx.coverage.setdefault("input_distribution", {})
-    nv = {"doctype-verdict": 0, "doctype-events": 0, "doctype-mutant": 0}
+    nv = {"doctype-verdict": 0, "doctype-events": 0, "doctype-mutant": 0, "doctype-ext": 0}
     res = {}
     for (i, a, sc, ns), req, o in zip(meta, lines, out):
         ctx.count()
         ev, errs, fh = parse_impl(o)
         fatal = fatal_count(errs) > 0
+        if isinstance(i, tuple) and i[0] == "x":
+            c = ext[i[1]]
+            dist[c["kind"]] = dist.get(c["kind"], 0) + 1
+            ctx.distinct(("dtd-ext", c["text"], tuple(sorted(c["res"].items())), sc, ns))
+            if fatal or ev != c["events"] or [e for e in errs if e.startswith("E:")]:
+                nv["doctype-ext"] += 1
+                if nv["doctype-ext"] <= 3:
+                    ctx.violation("doctype-ext", {
+                        "what": "%s/%s namespaces=%d: a well-formed document whose external subset / external parameter "
+                                "entity uses conditional sections is %s" % (a, sc, ns, "rejected with a fatal error" if fatal
+                                                                            else "reported with different content"),
+                        "request": req, "impl": [ev, errs, fh], "expect": {"fatal": False, "events": c["events"]},
+                        "document": c["text"], "resources": c["res"]})
+            continue
         if isinstance(i, tuple):
-            name, s = muts[i[1]]
+            name, s, mres = muts[i[1]]
             dist["doctype-mutant/" + name] = dist.get("doctype-mutant/" + name, 0) + 1
             ctx.distinct(("dtd-mutant", s))
             if not fatal or fh == 0:
@@ -530,7 +668,7 @@ def doctype_stream(ctx, xh, jobs, ndocs):
                 if nv["doctype-mutant"] <= 2:
                     ctx.violation("doctype-mutant", {
                         "what": "malformed document with DOCTYPE (%s) accepted without a fatal error by %s/%s" % (name, a, sc),
-                        "request": req, "impl": [ev, errs, fh], "expect": {"fatal": True}, "document": s})
+                        "request": req, "impl": [ev, errs, fh], "expect": {"fatal": True}, "document": s, "resources": mres})
             continue
         d, s = docs[i]
         ef = GD.expected_fatal(d)
@@ -634,7 +772,7 @@ def judge(ctx, cases, cfgs, for_c03):
                                 "case_kind": c.kind, "op": c.op})
                         continue
                     # model correspondence: first fatal code (WF and IG scanners follow the modelled code)
-                    if (s == "WF" or (s == "IG" and ns == 0)) and moc.startswith("F"):
+                    if (s == "WF" or (s == "IG" and ns == 0)) and moc.startswith("F") and c.tag != "enc-switched":
                         ff = first_fatal(ierrs)
                         if ff == "E62":
                             # XMLReader's own pre-decoding of the XML declaration line (Reader_CouldNotDecodeFirstLine)
